@@ -443,7 +443,7 @@ var prepProfiles = []*ir.Profile{
 	{Name: "prep-mixed", MinSteps: 1, MaxSteps: 6, Durs: []int64{0, 5}, Modes: []string{"err"}, PBad: 10, PDeployFail: 10, PDeploySlow: 30, PDisabled: 30, PWaitFor: 50, MaxOutputs: 3, ErrOutput: true, PErrPathRef: 20, DeepExpr: true, PluginArith: true, StructRefs: true, PDeployExpr: 30},
 	{Name: "prep-tags", MinSteps: 2, MaxSteps: 5, Durs: []int64{0}, Tags: true, PDisabled: 40, PWaitFor: 30, MaxOutputs: 2},
 	{Name: "prep-tags-nested", MinSteps: 2, MaxSteps: 4, Durs: []int64{0}, Tags: true, SoftHang: true, PDisabled: 30, PWaitFor: 20, MaxOutputs: 2},
-	{Name: "prep-loops", MinSteps: 1, MaxSteps: 4, Durs: []int64{0}, Foreach: 50, PWaitFor: 30, PDisabled: 20, MaxOutputs: 2, ErrOutput: true},
+	{Name: "prep-loops", ItemsFromStep: 30, MinSteps: 1, MaxSteps: 4, Durs: []int64{0}, Foreach: 50, PWaitFor: 30, PDisabled: 20, MaxOutputs: 2, ErrOutput: true},
 	{Name: "prep-stop", MinSteps: 1, MaxSteps: 3, Durs: []int64{0}, StopIf: true, PWaitFor: 30},
 }
 
